@@ -282,6 +282,23 @@ func vTemplates() []vUpdTemplate {
 		{"SET l[0]=:v REMOVE m.k,b", []string{":v"}, func(p, b vVals) vVals {
 			return vWithout(vWith(vWith(p, "l", vListSet(p["l"], 0, b[":v"])), "m", vDelMember(p["m"], "k")), "b")
 		}},
+		// clauses in the other order: a right-hand side still reads the pre-update item
+		{"ADD n :n SET c = n", []string{":n"}, func(p, b vVals) vVals { return vWith(vWith(p, "c", p["n"]), "n", vN(p["n"].N+b[":n"].N)) }},
+		{"REMOVE a SET c = a", nil, func(p, b vVals) vVals {
+			if !has(p, "a") {
+				return nil
+			}
+			return vWithout(vWith(p, "c", p["a"]), "a")
+		}},
+		{"SET l[0] = :v, l[1] = :w", []string{":v", ":w"}, func(p, b vVals) vVals {
+			return vWith(p, "l", vListSet(vListSet(p["l"], 0, b[":v"]), 1, b[":w"]))
+		}},
+		{"SET m.k = :v, m.j = :w", []string{":v", ":w"}, func(p, b vVals) vVals {
+			return vWith(p, "m", vSetMember(vSetMember(p["m"], "k", b[":v"]), "j", b[":w"]))
+		}},
+		{"SET a = if_not_exists(zz, :v), b = if_not_exists(n, :w)", []string{":v", ":w"}, func(p, b vVals) vVals {
+			return vWith(vWith(p, "a", b[":v"]), "b", p["n"])
+		}},
 		// number sets and binary sets: union and difference by value
 		{"ADD ns :ns", []string{":ns"}, func(p, b vVals) vVals {
 			return vWith(p, "ns", vspec.Val{Kind: "NS", NS: vUnionN(p["ns"].NS, b[":ns"].NS)})
@@ -369,6 +386,8 @@ func VerifC07Update() {
 		switch name {
 		case ":v":
 			b[name] = vS1("v")
+		case ":w":
+			b[name] = vS1("w")
 		case ":n":
 			b[name] = vN(5)
 		case ":l":
